@@ -28,7 +28,7 @@ func localFile(g *graph.CodeGraph) string {
 // runForced scans dir forcing the per-file results to arrive in the given order (files missing from
 // rank are unconstrained). Returns the observed arrival order (files of non-empty local graphs),
 // the local graphs in arrival order and the final graph.
-func runForced(dir string, order []string, jitter *rand.Rand) (observed []string, locals [][]string, final *graph.CodeGraph, timedOut bool) {
+func runForced(dir string, order []string, jitter *rand.Rand, silent map[string]bool) (observed []string, locals [][]string, final *graph.CodeGraph, timedOut bool, hung bool) {
 	rank := map[string]int{}
 	for i, f := range order {
 		rank[f] = i
@@ -52,6 +52,11 @@ func runForced(dir string, order []string, jitter *rand.Rand) (observed []string
 		mu.Lock()
 		for merged < r && !released {
 			cond.Wait()
+		}
+		if silent[path] {
+			// an entry that cannot be read is skipped without any merge event: it counts as done once taken up
+			merged++
+			cond.Broadcast()
 		}
 		mu.Unlock()
 	}
@@ -77,10 +82,25 @@ func runForced(dir string, order []string, jitter *rand.Rand) (observed []string
 			mu.Unlock()
 		}
 	}()
-	final = graph.Initialize(dir)
+	final, hung = initWithDeadline(dir, 25*time.Second)
 	close(done)
-	graph.VerifBeforeFile, graph.VerifOnMerge = nil, nil
+	if !hung {
+		graph.VerifBeforeFile, graph.VerifOnMerge = nil, nil
+	}
 	return
+}
+
+// initWithDeadline runs graph.Initialize; hung = it did not return within d (its goroutines are then abandoned;
+// the caller reports and exits)
+func initWithDeadline(dir string, d time.Duration) (*graph.CodeGraph, bool) {
+	ch := make(chan *graph.CodeGraph, 1)
+	go func() { ch <- graph.Initialize(dir) }()
+	select {
+	case g := <-ch:
+		return g, false
+	case <-time.After(d):
+		return graph.NewCodeGraph(), true
+	}
 }
 
 func hashLines(l []string) string {
@@ -129,16 +149,25 @@ func cmdOrders(args []string) int {
 		return 0
 	}
 	// files that yield at least one entity (an empty local graph carries no file name)
-	probe := graph.Initialize(dir)
+	probe, phung := initWithDeadline(dir, 25*time.Second)
+	if phung {
+		fmt.Fprintf(w, "RUN kind=probe procs=%d timeout=false hang=true want=x observed=x hash=x nodes=0 edges=0\n", runtime.GOMAXPROCS(0))
+		w.Flush()
+		os.Exit(0)
+	}
 	has := map[string]bool{}
 	for _, n := range probe.Nodes {
 		has[n.File] = true
 	}
+	// every discovered entry is ranked: files with entities are counted when merged, readable files without
+	// entities arrive as an anonymous empty graph, unreadable entries (dangling links ...) are skipped silently
+	silent := map[string]bool{}
 	var ranked []string
 	for _, f := range files {
-		if has[f] {
-			ranked = append(ranked, f)
+		if _, err := os.ReadFile(f); err != nil {
+			silent[f] = true
 		}
+		ranked = append(ranked, f)
 	}
 	var orders [][]string
 	if len(ranked) <= 4 {
@@ -167,7 +196,12 @@ func cmdOrders(args []string) int {
 	}
 	procs := []int{1, 2, 4, 16}
 	first := true
-	emit := func(kind string, want []string, obs []string, locals [][]string, final *graph.CodeGraph, to bool, p int) {
+	emit := func(kind string, want []string, obs []string, locals [][]string, final *graph.CodeGraph, to bool, p int, hung bool) {
+		if hung {
+			fmt.Fprintf(w, "RUN kind=%s procs=%d timeout=%v hang=true want=%s observed=x hash=x nodes=0 edges=0\n", kind, p, to, hx(strings.Join(want, "\x00")))
+			w.Flush()
+			os.Exit(0)
+		}
 		lines := graphLines(final)
 		var nonEmpty []string
 		for _, f := range obs {
@@ -175,8 +209,14 @@ func cmdOrders(args []string) int {
 				nonEmpty = append(nonEmpty, f)
 			}
 		}
-		fmt.Fprintf(w, "RUN kind=%s procs=%d timeout=%v want=%s observed=%s hash=%s nodes=%d edges=%d\n", kind, p, to,
-			hx(strings.Join(want, "\x00")), hx(strings.Join(nonEmpty, "\x00")), hashLines(lines), len(final.Nodes), len(final.Edges))
+		var wantEnt []string
+		for _, f := range want {
+			if has[f] {
+				wantEnt = append(wantEnt, f)
+			}
+		}
+		fmt.Fprintf(w, "RUN kind=%s procs=%d timeout=%v hang=false want=%s observed=%s hash=%s nodes=%d edges=%d\n", kind, p, to,
+			hx(strings.Join(wantEnt, "\x00")), hx(strings.Join(nonEmpty, "\x00")), hashLines(lines), len(final.Nodes), len(final.Edges))
 		if first {
 			first = false
 			for _, l := range lines {
@@ -194,14 +234,14 @@ func cmdOrders(args []string) int {
 	for i, o := range orders {
 		p := procs[i%len(procs)]
 		runtime.GOMAXPROCS(p)
-		obs, locals, final, to := runForced(dir, o, nil)
-		emit("forced", o, obs, locals, final, to, p)
+		obs, locals, final, to, hung := runForced(dir, o, nil, silent)
+		emit("forced", o, obs, locals, final, to, p, hung)
 	}
 	for k := 0; k < nruns; k++ {
 		p := procs[k%len(procs)]
 		runtime.GOMAXPROCS(p)
-		obs, locals, final, to := runForced(dir, nil, rng)
-		emit("jitter", nil, obs, locals, final, to, p)
+		obs, locals, final, to, hung := runForced(dir, nil, rng, silent)
+		emit("jitter", nil, obs, locals, final, to, p, hung)
 	}
 	sort.Strings(files)
 	fmt.Fprintf(w, "FILES %d ranked=%d\n", len(files), len(ranked))
